@@ -205,6 +205,50 @@ func nontrivial(c *tablegen.Case, t *fmtspec.Table) bool {
 }
 
 // checkTable applies the oracle of prop to one case.
+// outOfDomain yields inputs OUTSIDE the writer's documented domain (keys not strictly ascending): the writer may
+// refuse them (error or panic), but whatever it accepts and emits must still be a well-formed table.
+func outOfDomain(yield func(*tablegen.Case)) {
+	for _, cfg := range []tablegen.Cfg{{}, {BlockSize: 128, Unaligned: true}, {SHA256: true}} {
+		hs := cfg.HashSize()
+		ref := func(n string) refdb.Ref {
+			return refdb.Ref{Name: n, UpdateIndex: 5, Kind: 1, Value: tablegen.Oid("v"+n, hs)}
+		}
+		lg := func(n string, ui uint64) refdb.Log {
+			return refdb.Log{Name: n, UpdateIndex: ui, Old: tablegen.Oid("o", hs), New: tablegen.Oid("n", hs), Who: "w", Email: "e", Time: 100, Message: "m\n"}
+		}
+		var many []refdb.Ref
+		for i := 0; i < 30; i++ {
+			many = append(many, ref(fmt.Sprintf("refs/heads/b%02d", i)))
+		}
+		many = append(many, many[len(many)-1])
+		for i, c := range []*tablegen.Case{
+			{Refs: []refdb.Ref{ref("a"), ref("a")}},
+			{Refs: []refdb.Ref{ref("b"), ref("a")}},
+			{Refs: []refdb.Ref{ref("a"), ref("b"), ref("b")}},
+			{Refs: many},
+			{Logs: []refdb.Log{lg("a", 5), lg("a", 5)}},
+			{Logs: []refdb.Log{lg("a", 4), lg("a", 5)}},
+			{Logs: []refdb.Log{lg("b", 5), lg("a", 5)}},
+			{Refs: []refdb.Ref{ref("a")}, Logs: []refdb.Log{lg("a", 5), lg("a", 5)}},
+		} {
+			c.Family, c.Cfg, c.Min, c.Max, c.Note = "F0", cfg, 5, 5, fmt.Sprintf("out-of-domain #%d", i)
+			yield(c)
+		}
+	}
+}
+
+func checkOutOfDomain(c *tablegen.Case, res *workerResult) {
+	res.Cases++
+	data, rejected, perr := writeTable(c)
+	if perr != "" || rejected != "" {
+		res.Rejected++
+		return
+	}
+	if _, derr := fmtspec.Decode(data); derr != nil {
+		res.violate("wellformed:emitted-for-out-of-domain-input:"+errClass(derr.Error()), fmt.Sprintf("%s: the writer accepted keys that are not strictly ascending and emitted a table that is not well-formed: %v", c.ID(), derr), caseOf(c))
+	}
+}
+
 func checkTable(prop string, c *tablegen.Case, res *workerResult) {
 	res.Cases++
 	data, rejected, perr := writeTable(c)
@@ -526,6 +570,13 @@ func runWorker(prop, tier string, wi, wn int, res *workerResult) {
 	unit := 0
 	mine := func() bool { unit++; return (unit-1)%wn == wi }
 	yield := func(c *tablegen.Case) { checkTable(prop, c, res) }
+	if prop == "C14" {
+		outOfDomain(func(c *tablegen.Case) {
+			if mine() {
+				checkOutOfDomain(c, res)
+			}
+		})
+	}
 	if prop == "C01" || prop == "C02" || prop == "C14" {
 		tablegen.F5(func(c *tablegen.Case) {
 			if mine() {
@@ -610,6 +661,10 @@ func replayCase(prop string, raw json.RawMessage, res *workerResult) error {
 	c := &tablegen.Case{Family: cj.Family, Cfg: cj.Cfg, Min: cj.Min, Max: cj.Max, Refs: cj.Refs, Logs: cj.Logs, Note: cj.Note}
 	if prop == "C11" {
 		checkRefsForTable(c, res)
+		return nil
+	}
+	if c.Family == "F0" {
+		checkOutOfDomain(c, res)
 		return nil
 	}
 	checkTable(prop, c, res)
